@@ -17,7 +17,7 @@ From Coq Require Import List NArith Bool.
 From V.gen Require Consts.
 From V.C14 Require Model Proofs.
 From V.C17 Require Model.
-From V.C16 Require Import Model Proofs Obl Bound Chan Exec Compose Comp.
+From V.C16 Require Import Model Proofs Obl Bound Chan Exec Time Compose Comp.
 Import ListNotations.
 Open Scope N_scope.
 
@@ -383,6 +383,37 @@ Theorem C16_closed_while_outstanding :
 Proof. exact closed_discharges. Qed.
 Print Assumptions C16_closed_while_outstanding.
 
+(* ---- "within bounded time" ---- *)
+
+(* Obligations carry their time of birth: a queued dial (per peer), a pending substream (per id), an
+   executor future (per id).  `timed D`: the clock passes only while the loop waits with the engine
+   drained, and never more than D beyond the birth of an obligation that is still outstanding (dials and
+   substream requests are answered within D by the transport layer; futures complete within
+   WRITE_TIMEOUT + READ_TIMEOUT by C16_executor_bounded).  Then in a fair schedule without new work the
+   event after k productive ones happens at most D * (k + 1) after the start ... *)
+Theorem C16_bounded_time :
+  forall D g m es0 a e b,
+  1 <= g_alpha g -> is_tick e = false ->
+  let s0 := fst (run g (st0 m) es0) in
+  fair_run g s0 (a ++ e :: b) ->
+  timed D g s0 (restamp (now s0) [] (okeys s0)) (a ++ e :: b) ->
+  now (fst (run g s0 a)) <= now s0 + D * N.of_nat (S (length (work a))).
+Proof. exact bounded_time. Qed.
+Print Assumptions C16_bounded_time.
+
+(* ... hence every event of such a schedule, in particular every terminal event, happens within
+   D * budget(n, k, es0) of its start: the explicit time bound of the property *)
+Theorem C16_bounded_time_budget :
+  forall D U g m es0 a e b,
+  1 <= g_alpha g -> fresh_ids [] (es0 ++ a ++ e :: b) -> cmds_ok g es0 ->
+  evs_in_U U es0 -> evs_in_U U (a ++ e :: b) -> is_tick e = false ->
+  let s0 := fst (run g (st0 m) es0) in
+  fair_run g s0 (a ++ e :: b) ->
+  timed D g s0 (restamp (now s0) [] (okeys s0)) (a ++ e :: b) ->
+  now (fst (run g s0 a)) <= now s0 + D * N.of_nat (budget (length U) g es0).
+Proof. exact bounded_time_budget. Qed.
+Print Assumptions C16_bounded_time_budget.
+
 (* ---- requests of remote peers, served by the same loop ---- *)
 
 (* inbound traffic (a remote peer opens a substream; a future without query id reads a request or
@@ -578,3 +609,48 @@ Example C16_nonvacuous_compose :
           UStoreRecord 7; UCmd 1 (UCGet QOne 7) [true; false]]) =
   [ORouting [1]; OFindNodeSuccess 0 [0]; OPartial 1 99 LOCAL_REC; OGetRecSuccess 1].
 Proof. split; [exact ex_wc_ok | vm_compute; reflexivity]. Qed.
+
+(* the new layers are not vacuous.  Requests of remote peers: the reply to an inbound FIND_NODE names the
+   peer the user added to the table.  Refresh timers: the timer of a provided key starts a refresh with
+   the quorum of start_providing; after stop_providing it fires without effect.  Manual validation:
+   an inbound PUT_VALUE leaves the store empty, in the Automatic mode it is stored *)
+Example C16_nonvacuous_inbound_refresh :
+  let W0 := w0 ex_wc [(0, 2); (1, 2)] 2 in
+  let pre := [UAddKnownPeer 0 true; UEv (EEstablished 1 true); UEv (EInbound 1 100)] in
+  let w := fst (crun ex_wc W0 pre) in
+  reply_of ex_wc w (UInReq 100 (IFindNode [true; true])) = Some (false, [0]) /\
+  map V.C17.Model.r_key (V.C17.Model.recs (w_store (fst (fst (cstep ex_wc w (UInReq 100 (IPutValue 5))))))) = [5] /\
+  (let wm := mkWC (wc_g ex_wc) (wc_keys ex_wc) (wc_pool ex_wc) (wc_K ex_wc) (wc_scfg ex_wc) (wc_ttl ex_wc) true false in
+   V.C17.Model.recs (w_store (fst (fst (cstep wm (fst (crun wm (w0 wm [(0, 2); (1, 2)] 2) pre))
+                                             (UInReq 100 (IPutValue 5)))))) = []) /\
+  (let w1 := fst (crun ex_wc W0 [UCmd 0 (UCProv QOne 5) [true; true]]) in
+   fst (fst (elab ex_wc w1 (UFire 1 5 [true; true]))) = ECmd 1 (CRefresh QOne) [1; 0] [] /\
+   w_timers (fst (fst (cstep ex_wc w1 (UFire 1 5 [true; true])))) = [5]) /\
+  (let w2 := fst (crun ex_wc W0 [UCmd 0 (UCProv QOne 5) [true; true]; UStopProviding 5]) in
+   fst (fst (elab ex_wc w2 (UFire 1 5 [true; true]))) = ENop /\
+   w_timers (fst (fst (cstep ex_wc w2 (UFire 1 5 [true; true])))) = []).
+Proof. vm_compute. repeat split; reflexivity. Qed.
+
+(* a timed, fair schedule: the substream is opened 5 time units after it was asked for, the reply comes 7
+   later; D = 10 is respected, and the lookup ends at time 12 <= D * 3 *)
+Example C16_nonvacuous_timed :
+  let g := mkG 20 3 99 10 in
+  let s0 := fst (run g (st0 [(0, 2)]) [EEstablished 0 true; ECmd 0 CFindNode [0] [0]; EServe 0]) in
+  let es1 := [ETick 5; EOpened 0 0; ETick 7; EFut 0 (RRead (MFindNode [])); EServe 0] in
+  okeys s0 = [(1, 0)] /\ timed 10 g s0 (restamp (now s0) [] (okeys s0)) es1 /\ fair_run g s0 es1 /\
+  now (fst (run g s0 es1)) = 12 /\ snd (run g s0 es1) = [ORouting []; OFindNodeSuccess 0 [0]].
+Proof.
+  split; [vm_compute; reflexivity |]. split.
+  - cbn [timed is_tick]. split; [vm_compute; reflexivity |]. split.
+    + intros k t0 H. vm_compute in H. destruct H as [H | []]. inversion H. subst. vm_compute. discriminate.
+    + split; [vm_compute; reflexivity |]. split; [| exact I].
+      intros k t0 H. vm_compute in H. destruct H as [H | []]. inversion H. subst. vm_compute. discriminate.
+  - split.
+    + cbn [fair_run is_input is_tick]. split; [reflexivity |]. split; [left; reflexivity |].
+      split; [reflexivity |]. split.
+      { right. cbn [productive]. vm_compute. eexists. eexists. split; reflexivity. }
+      split; [reflexivity |]. split; [left; reflexivity |]. split; [reflexivity |]. split.
+      { right. cbn [productive]. vm_compute. eexists. split; reflexivity. }
+      split; [reflexivity |]. split; [| exact I]. right. vm_compute. reflexivity.
+    + vm_compute. split; reflexivity.
+Qed.
